@@ -2,6 +2,7 @@ package oracle
 
 import (
 	"fmt"
+	"github.com/hashicorp/hcl/v2/hclsyntax"
 	"regexp"
 	"strings"
 
@@ -293,10 +294,11 @@ func (o *C08) Check(x *h.Exec, ev *h.Event) {
 								x.Report("reference-prefix", "completion", "", fmt.Sprintf("candidate %q at byte %d does not start with the typed text %q", cd.Label, off, typed), &q)
 								return
 							}
-							visible, self, notSelfAttr := false, false, false
+							visible, self, notSelfAttr, absolute := false, false, false, false
 							for _, ti := range tis {
 								if !ti.local {
 									visible = true
+									absolute = true // (a declaration whose absolute address happens to read self.x / each.x)
 								} else if ti.t.TargetableFromRangePtr == nil || (ti.t.TargetableFromRangePtr.Filename == f.Name && ti.t.TargetableFromRangePtr.Start.Byte <= off && off <= ti.t.TargetableFromRangePtr.End.Byte) {
 									visible = true
 									if strings.HasPrefix(cd.Label, "self") {
@@ -311,7 +313,7 @@ func (o *C08) Check(x *h.Exec, ev *h.Event) {
 								x.Report("block-local-outside-block", "completion", rootOf(cd.Label), fmt.Sprintf("candidate %q at byte %d of %s is a block-local name whose block does not contain the cursor", cd.Label, off, f.Name), &q)
 								return
 							}
-							if self && !selfOK {
+							if self && !selfOK && !absolute {
 								x.Report("self-not-enabled", "completion", "", fmt.Sprintf("candidate %q at byte %d: the body does not enable self references", cd.Label, off), &q)
 								return
 							}
@@ -322,10 +324,9 @@ func (o *C08) Check(x *h.Exec, ev *h.Event) {
 								shape := ""
 								for _, ti := range tis {
 									for _, nt := range ti.t.NestedTargets {
+										// (an element of a list/tuple value or an item of an object/map value)
 										if len(nt.Addr) > 0 && nt.RangePtr != nil && nt.RangePtr.Start.Byte >= n.Value.Start && nt.RangePtr.End.Byte <= n.Value.End {
-											if _, isIdx := nt.Addr[len(nt.Addr)-1].(lang.IndexStep); isIdx {
-												shape = "sibling-element"
-											}
+											shape = "sibling-element"
 										}
 									}
 								}
@@ -482,6 +483,22 @@ func (o *C08) roundTrip(x *h.Exec, pi int, f *h.FileState, cd lang.Candidate, t 
 			return false
 		}
 	}
-	x.Report("accepted-reference-unresolved", "goto_def", "", fmt.Sprintf("accepting reference candidate %q at byte %d produces %q, which go-to-definition does not resolve to its declaration at %v (got %d targets, err %v)", cd.Label, q.Off, te.NewText, *t.RangePtr, len(got), r.Err), &q)
+	// narrower fingerprint for one recorded family: a step of the declaration's
+	// address is no identifier (a block label such as "na.b"), so no reference
+	// text can denote it - the candidate's text reads as other steps
+	shape := ""
+	for _, st := range t.Addr {
+		switch v := st.(type) {
+		case lang.AttrStep:
+			if !hclsyntax.ValidIdentifier(v.Name) {
+				shape = "non-identifier-step"
+			}
+		case lang.RootStep:
+			if !hclsyntax.ValidIdentifier(v.Name) {
+				shape = "non-identifier-step"
+			}
+		}
+	}
+	x.Report("accepted-reference-unresolved", "goto_def", shape, fmt.Sprintf("accepting reference candidate %q at byte %d produces %q, which go-to-definition does not resolve to its declaration at %v (got %d targets, err %v)", cd.Label, q.Off, te.NewText, *t.RangePtr, len(got), r.Err), &q)
 	return true
 }
